@@ -1,7 +1,6 @@
 package taskctl
 
 import (
-	"context"
 	"os/exec"
 	"sync"
 	"sync/atomic"
@@ -115,12 +114,6 @@ func (s *Scheduler) Schedule(g *scheduler.ExecutionGraph) error {
 	}
 
 	wg.Wait()
-
-	// If the scheduler was canceled while no stage was running (e.g. between two stages), the remaining stages
-	// will never be started, so the result must not look like a success
-	if lastErr == nil && atomic.LoadInt32(&s.cancelled) == 1 && !s.isDone(g) {
-		lastErr = context.Canceled
-	}
 
 	return lastErr
 }
